@@ -993,6 +993,7 @@ func (x *cluster) JobKey(ctx context.Context, jobID string) ([]byte, error) {
 // ErrScheduleFireClaimed for every other caller racing for the same key (it must skip delivery
 // for that tick silently).
 func (x *cluster) ClaimScheduleFire(ctx context.Context, key string, ttl time.Duration) error {
+	verifhook.At("cluster.ClaimScheduleFire", x, 0, 0)
 	if !x.running.Load() {
 		return ErrEngineNotRunning
 	}
